@@ -227,7 +227,7 @@ ParseCb(q) == Cb(WithCtx([name |-> "parse", q |-> q.id]))
 \* may be honoured instead (E2).
 DoDiscard ==
     /\ Reading("ready") /\ skip /\ Head1.t \notin {"S"}
-    /\ Head1.t # "Tiny"
+    /\ Head1.t \notin {"Tiny", "Huge"}
     /\ Consume
     /\ emit' = <<>>
     /\ UNCHANGED <<cfg, phase, ssl, mwi, cparams, eof, faulted, stmts, portals, skip, hq, h>>
@@ -504,6 +504,15 @@ DoBig ==
             \/ emit' = <<Rv(ErrTooBig)>> /\ skip' = TRUE
     /\ UNCHANGED <<cfg, phase, ssl, mwi, cparams, eof, faulted, stmts, portals, hq, h>>
 
+\* A message declaring far more than the client ever sends (up to 2^32-1):
+\* the server skips what arrives, buffering nothing, and can only wait; the
+\* session resumes only if the declared bytes do arrive.
+DoHuge ==
+    /\ Reading("ready") /\ Head1.t = "Huge"
+    /\ Consume
+    /\ emit' = <<>> /\ phase' = "slurp"
+    /\ UNCHANGED <<cfg, ssl, mwi, cparams, eof, faulted, stmts, portals, skip, hq, h>>
+
 \* E8: a declared length below the 4-byte minimum: rejected - an error and
 \* the session continues, or the connection ends.  Never a read.
 DoTiny ==
@@ -541,7 +550,7 @@ DoStartupReject ==
 
 \* The client's side is closed and everything it sent has been consumed.
 ServerEOF ==
-    /\ phase \in {"startup", "auth", "ready"} /\ ~faulted
+    /\ phase \in {"startup", "auth", "ready", "slurp"} /\ ~faulted
     /\ inq = <<>> /\ eof /\ ~h.on /\ hq = <<>>
     /\ emit' = <<CloseEv>> /\ Closed
     /\ UNCHANGED <<cfg, ssl, mwi, cparams, inq, eof, faulted, stmts, portals, skip, hq, h>>
@@ -565,7 +574,7 @@ Handler == HRow \/ HComplete \/ HEmpty \/ HCopyIn \/ HCopyReadNoop \/ HCopyRead 
 
 Command == DoDiscard \/ DoQuery \/ StartNext \/ DoParse \/ DoBind \/ DoDescribe \/ DoExecute
            \/ DoClose \/ DoFlush \/ DoSync \/ DoStrayCopy \/ DoTerminate
-           \/ DoUnknown \/ DoBig \/ DoTiny \/ DoMalformed
+           \/ DoUnknown \/ DoBig \/ DoHuge \/ DoTiny \/ DoMalformed
 
 ServerStep == Preamble \/ Command \/ Handler \/ ServerEOF
 
@@ -574,7 +583,7 @@ ServerStep == Preamble \/ Command \/ Handler \/ ServerEOF
 (* and in every state of every validated execution).                       *)
 
 TypeOK ==
-    /\ phase \in {"startup", "auth", "postauth", "mw", "ready", "closed"}
+    /\ phase \in {"startup", "auth", "postauth", "mw", "ready", "slurp", "closed"}
     /\ ssl \in {"none", "refused", "tls"}
     /\ skip \in BOOLEAN /\ eof \in BOOLEAN /\ faulted \in BOOLEAN
     /\ h.on \in BOOLEAN
